@@ -11,7 +11,7 @@ PROPS = {}
 NOT_APPLICABLE = {}
 HOOK_COMMITS = ['0378f89', '5b36563', '2d739c2']
 # properties whose check exists in the tree but is not yet claimed (still being built / reviewed)
-NOT_READY = {"C11"}
+NOT_READY = set()
 
 PROPS["C14"] = dict(
     level="proof",
